@@ -15,7 +15,7 @@ Inductive case :=
           (red : reduction) (out : option (list (nat * list Q)))
 | SetFeature (add_missing : bool) (fcs : list feature_config) (fk : list (nat * list Q))
              (out : list (nat * option (list Q)))
-| Label (lc : label_config) (labels : list Q) (logits : bool) (ws : option (list Q))
+| Label (lc : label_config) (labels : labels_in) (logits : bool) (ws : option (list Q))
         (red : reduction) (out : option (list Q)).
 
 Definition tol : Q := 1 # 1000000000.
@@ -35,7 +35,8 @@ Definition check_ck (vs : list Q) (k : nat) (mode : kmode) (cmin cmax dv : optio
            (ws : option (list Q)) (red : reduction) (out : option (list Q)) : bool :=
   let gs := sort_unique (prep vs ws cmin cmax dv) in
   let w := is_some ws in
-  existsb (fun ups => out_close (finish (rnd_ch ups) gs k mode w red) out)
+  existsb (fun ups => out_close (finish (rnd_ch ups) false gs k mode w red) out
+                      || out_close (finish (rnd_ch ups) true gs k mode w red) out)
           (choices (raw_indices gs k mode w red)).
 
 Definition ck_raws (vs : list Q) (k : nat) (mode : kmode) (cmin cmax dv : option Q)
@@ -60,7 +61,8 @@ Definition fc_choices (fc : feature_config) (vs : list Q) (ws : option (list Q))
 Definition check_feature_one (fcs : list feature_config) (ws : option (list Q)) (red : reduction)
            (entries : list (nat * list Q)) (f : nat * list Q) : bool :=
   let fc := fc_by_name fcs (fst f) in
-  existsb (fun ups => fk_close (feature_keypoints_one (rnd_ch ups) fc (snd f) ws red) (lookup (fst f) entries))
+  existsb (fun ups => fk_close (feature_keypoints_one (rnd_ch ups) false fc (snd f) ws red) (lookup (fst f) entries)
+                      || fk_close (feature_keypoints_one (rnd_ch ups) true fc (snd f) ws red) (lookup (fst f) entries))
           (fc_choices fc (snd f) ws red).
 Definition is_error (r : fk_result) : bool := match r with FError => true | _ => false end.
 Definition is_skip (r : fk_result) : bool := match r with FSkip => true | _ => false end.
@@ -86,7 +88,7 @@ Definition check (c : case) : bool :=
     check_ck vs k mode cmin cmax dv ws red out
     && match out with Some o => Bool.eqb (pwl_keypoints_ok o) pwl | None => true end
   | Feature fcs features ws red out =>
-    let model := compute_feature_keypoints rnd_he fcs features ws red in
+    let model := compute_feature_keypoints rnd_he false fcs features ws red in
     match out with
     | None => existsb (fun r => is_error (snd r)) model
     | Some entries =>
@@ -97,9 +99,26 @@ Definition check (c : case) : bool :=
   | SetFeature add fcs fk out =>
     given_close (map spec_given (set_feature_keypoints add fcs fk)) out
   | Label lc labels logits ws red out =>
-    existsb (fun ups => label_close (compute_label_keypoints (rnd_ch ups) lc labels logits ws red) out)
+    existsb (fun ups => label_close (compute_label_keypoints (rnd_ch ups) false lc labels logits ws red) out
+                      || label_close (compute_label_keypoints (rnd_ch ups) true lc labels logits ws red) out)
             (match lc_spec lc with
-             | KMode m => choices (ck_raws labels (lc_num_keypoints lc) m (lc_output_min lc) (lc_output_max lc) None ws red)
+             | KMode m => choices (ck_raws (label_values labels) (lc_num_keypoints lc) m (lc_output_min lc) (lc_output_max lc) None (label_weights labels ws) red)
              | KGiven _ => [[]]
              end)
+  end.
+
+(* statistics only: the code's own numerics (np.rint = half to even, NumPy's
+   search) with no tie relaxation; cases failing this but passing [check] are
+   those where float evaluation resolved an exact tie the other way *)
+Definition check_exact (c : case) : bool :=
+  match c with
+  | Direct vs k mode cmin cmax dv ws red out _ =>
+    out_close (compute_keypoints rnd_he false vs k mode cmin cmax dv ws red) out
+  | _ => true
+  end.
+Definition no_tie (c : case) : bool :=
+  match c with
+  | Direct vs k mode cmin cmax dv ws red out _ =>
+    match tie_positions (ck_raws vs k mode cmin cmax dv ws red) with [] => true | _ => false end
+  | _ => true
   end.
